@@ -255,6 +255,11 @@ func focused(prop string, thorough bool) []focus {
 			// edits between values that compare equal but can be told apart by the function
 			{[]string{"const:K int<->float", "global:ORD order", "const:K", "build:mid", "build:top"}, 6 + d},
 		}
+	case "C13":
+		return []focus{
+			// dry runs after a build that was interrupted by the death of the process
+			{[]string{"delete:gen/g.txt", "edit:src/a.txt", "interrupt:build:gen(dies between gen's two outputs)", "interrupt:build:mid(dies in mid's body)", "dry:mid", "build:mid"}, 5 + d},
+		}
 	case "C02":
 		return []focus{
 			{[]string{"link:dir/link", "edit:misc/n.txt", "comment:BUILD.dawn", "build:mid", "build:top"}, 7 + d},
